@@ -250,3 +250,47 @@ func zzH_C01_glue() {
 	}
 	zzv.Assert("filtering-is-exact", (res != nil) == want)
 }
+
+func init() {
+	zzHarnesses["zzH_C01_noext"] = zzH_C01_noext
+}
+
+var zzRawQueryAlphabet = []rune{'a', 'A', ' ', 'é', '|', '!', '^'}
+
+// H1.noext: with --no-extended the whole query string is one pattern: operators are ordinary
+// characters, smart-case and the accent rule are decided over the whole string.
+func zzH_C01_noext() {
+	algo.Init("default")
+	sortCriteria = []criterion{byScore, byLength}
+	fuzzyMode := zzv.CfgBool("fuzzy")
+	caseMode := Case(zzv.CfgInt("case"))
+	normalize := zzv.CfgBool("norm")
+	m := zzv.Choose(1, zzv.CfgInt("qmax"))
+	q := make([]rune, m)
+	for i := range q {
+		q[i] = zzRawQueryAlphabet[zzv.Below(len(zzRawQueryAlphabet))]
+	}
+	n := zzv.Choose(0, zzv.CfgInt("nmax"))
+	line := make([]rune, n)
+	for i := range line {
+		line[i] = []rune{'a', 'A', ' ', 'e', 'é', '|', '!', '^'}[zzv.Below(8)]
+	}
+	item := &Item{text: util.ToChars([]byte(string(line)))}
+	p := BuildPattern(NewChunkCache(), map[string]*Pattern{}, fuzzyMode, algo.FuzzyMatchV2, false, caseMode, normalize, true,
+		false, true, nil, Delimiter{}, revision{}, q, nil)
+	res, _, _ := p.MatchItem(item, false, nil)
+	zzv.Reach("called")
+	cs := caseMode == CaseRespect || caseMode == CaseSmart && zzHasUpper(q)
+	norm := normalize && !zzHasAccent(q)
+	pat := q
+	if !cs {
+		pat = zzLowerRunes(q)
+	}
+	kind := 0
+	if fuzzyMode {
+		kind = 5
+	}
+	zzv.Assert("pattern-flags", p.caseSensitive == cs && p.normalize == norm && zzSameRunes(p.text, pat) && p.sortable)
+	want := algo.ZZTermMatches(kind, line, pat, cs, norm)
+	zzv.Assert("filtering-is-exact", (res != nil) == want)
+}
